@@ -53,3 +53,35 @@ Theorem C02_wildcards_never_match_separator : forall dot segs n,
                  Forall2 (C02Path.DenSeg dot true) segs pieces.
 Proof. exact C02Path.wildcards_never_match_separator. Qed.
 Print Assumptions C02_wildcards_never_match_separator.
+
+(* ---- patterns with `**` segments, end to end ---------------------------------------------------------------------------
+   Units = ordinary segments (as above), each optionally preceded by `**/`, optionally a final `/**` (or the lone `**`);
+   GLOBSTAR on, GLOBSTARLONG/DOTMATCH off, Unix rules.  The parser model prints the regex C02Glob.emit_pathG, and under the
+   position-aware semantics C02Glob.Xb (`^` holds only where nothing of the name has been consumed) that regex fully
+   matches a name without line feeds exactly when the name has the shape C02Glob.DenG: a `**` matches a run that never
+   steps onto the start of a hidden segment, followed by separators - at least one unless the name starts or ends there. *)
+From WC.Proofs Require C02Glob.
+
+Theorem C02_globstar_path_language : forall flags isb units endg,
+  (units <> [] \/ endg = true) -> Forall (fun u => C02Glob.uwf u = true) units ->
+  has flags Mwcparse.PATHNAME = true -> has flags Mwcparse.GLOBSTAR = true -> has flags Mwcparse.GLOBSTARLONG = false ->
+  has flags Mwcparse.DOTMATCH = false ->
+  FlagFuns.is_unix_style linux flags = true -> has flags Mwcparse.EXTMATCH = false ->
+  has flags Mwcparse.NODOTDIR = false -> has flags Mwcparse.REALPATH = false ->
+  has flags Mwcparse.u_ANCHOR = false -> has flags Mwcparse.MATCHBASE = false ->
+  has flags Mwcparse.u_EXTMATCHBASE = false -> has flags Mwcparse.u_TRANSLATE = false ->
+  exists r,
+    wcparse linux flags isb (C02Glob.punU units endg) =
+      inl (S_ "^(?s" ++ (if FlagFuns.get_case linux flags then [] else S_ "i") ++ S_ ":" ++ C02Path.xprint r ++ S_ ")$") /\
+    forall n, C02Path.nonl n -> (C02Glob.Xb r true n [] <-> C02Glob.DenG false true (C02Glob.to_psegs units endg) n).
+Proof. exact C02Glob.C02_globstar_path_language. Qed.
+Print Assumptions C02_globstar_path_language.
+
+(* `**` crosses whole segments only: what follows it starts at the beginning of the name or right after a separator *)
+Theorem C02_globstar_whole_segments : forall prev b ts rest n,
+  C02Glob.psegwf (C02Glob.PSeg ts) = true -> C02Path.nonl n ->
+  C02Glob.DenG prev b (C02Glob.PGstar :: C02Glob.PSeg ts :: rest) n ->
+  exists r d n', n = r ++ d ++ n' /\ C02Path.slashes d /\ (d <> [] \/ (b = true /\ r = [])) /\
+                 C02Glob.DenG true (b && C02Glob.is_nil r && C02Glob.is_nil d) (C02Glob.PSeg ts :: rest) n'.
+Proof. exact C02Glob.globstar_whole_segments. Qed.
+Print Assumptions C02_globstar_whole_segments.
